@@ -10,7 +10,9 @@ with support functions and signed surface functions (refs/support_fn.py):
   * pos -/+ dist/2 * n lie on the surfaces of geom[0] / geom[1] (the deepest contact of a primitive manifold; the
     single contact of a convex pair);
   * for constructed separated poses (d > 0) the true distance is exactly d: dist = d;
-  * height field: the normal never points into the terrain (n . up >= -0.1).
+  * height field: the normal never points into the terrain (n . up >= -0.1);
+  * sphere with its centre inside (5x5x5 local grid) a cylinder/box/capsule/sphere: dist = sdf_partner(centre) - r exactly
+    (the signed separation of the two geoms, i.e. the nearest surface is the one reported), plus the checks above.
 """
 
 import collections
@@ -31,7 +33,7 @@ RULE = (
   "distinct = hash of the scenario spec"
 )
 BOUNDS = {
-  "quick": "36 type pairs x 3 orientations x 4 (margin,gap) + swap on the generic orientation; hfield x 7 types x 2 orientations x 2 margins",
+  "quick": "36 type pairs x 3 orientations x 4 (margin,gap) + swap on the generic orientation; hfield x 7 types x 2 orientations x 2 margins; sphere centre on a 5x5x5 interior grid of cylinder/box/capsule/sphere x 3 orientations",
   "thorough": "5 orientations, swap everywhere, hfield x 3 orientations x 4 (margin,gap)",
 }
 ASSUMPTIONS = [
@@ -69,6 +71,10 @@ def scenarios(tier, seed):
     for o in ("aligned", "generic") if tier == "quick" else ("aligned", "generic", "rot90"):
       for margin, gap in MG[:2] if tier == "quick" else MG:
         out.append(dict(fam="hfield", tb=tb, orient=o, margin=margin, gap=gap, variant=v))
+  # a small sphere whose centre lies inside (or just outside) a closed-form partner: the distance of a sphere to X is sdf_X(centre) - r
+  for ta in INSIDE_SIZE:
+    for o in orients:
+      out.append(dict(fam="inside", ta=ta, orient=o, variant=v))
   return out
 
 
@@ -211,5 +217,75 @@ def _hfield(scn):
   )
 
 
+INSIDE_SIZE = {"cylinder": (0.5, 0.4), "box": (0.5, 0.4, 0.3), "capsule": (0.3, 0.4), "sphere": (0.5,)}
+INSIDE_GRID = (-0.85, -0.45, 0.1, 0.5, 0.8)
+INSIDE_R = 0.04
+
+
+def _inside(scn):
+  """5x5x5 grid of sphere centres in the partner's local frame (scaled by its half extents): deep, interior contacts."""
+  import mujoco
+
+  ta, v = scn["ta"], scn["variant"]
+  qa, _, _ = cs.orientation(scn["orient"], v)
+  sz = tuple(x * (1.0 + 0.1 * v) for x in INSIDE_SIZE[ta])
+  r = INSIDE_R * (1.0 + 0.25 * v)
+  xml = (
+    f'<mujoco><worldbody><geom name="gA" type="{ta}" size="{" ".join(f"{x:.6g}" for x in sz)}" pos="0.1 -0.2 0.3" quat="{" ".join(f"{x:.9g}" for x in qa)}"/>'
+    f'<body name="bB"><freejoint/><geom name="gB" type="sphere" size="{r:.6g}"/></body></worldbody></mujoco>'
+  )
+  mjm, err = util.try_load(xml)
+  if mjm is None:
+    return dict(ok=False, violations=[dict(vkey="inside:scene_rejected", what=str(err)[:200])], nontrivial=False, key=util.sha(scn))
+  mjd0 = util.mj_data(mjm)
+  mujoco.mj_kinematics(mjm, mjd0)
+  sA = sf.from_model(mjm, mjd0, 0)
+  ext = {"cylinder": lambda: (sz[0], sz[0], sz[1]), "box": lambda: sz, "capsule": lambda: (sz[0], sz[0], sz[0] + sz[1]), "sphere": lambda: (sz[0],) * 3}[ta]()
+  qs, locs = [], []
+  for a in INSIDE_GRID:
+    for b in INSIDE_GRID:
+      for cz in INSIDE_GRID:
+        loc = np.array([a * ext[0], b * ext[1], cz * ext[2]])
+        locs.append(loc)
+        qs.append(list(sA.pos + sA.mat @ loc) + [1.0, 0.0, 0.0, 0.0])
+  m, d = cs.run_worlds(mjm, qs, nconmax=4 * len(qs))
+  c = util.Cmp()
+  stats = collections.Counter()
+  name = cc.pair_name(int(mjm.geom_type[0]), int(mjm.geom_type[1]))
+  for w, q in enumerate(qs):
+    want = sf.surface(sA, np.array(q[:3])) - r
+    got = util.mjw_contacts(d, w)
+    tag = f"centre_local={np.round(locs[w], 4).tolist()} (true distance {want:+.6g})"
+    c.nchecked += 1
+    if not got:
+      stats["empty"] += 1
+      if want < -1e-4:
+        c.fail(f"P:{name}:inside:contact_missing", f"{tag}: no contact reported")
+      continue
+    if len(got) != 1:
+      c.fail(f"P:{name}:inside:contact_count", f"{tag}: {len(got)} contacts for a sphere pair")
+    k = got[0]
+    cc.frame_valid(c, k, tag, f"P:{name}")
+    mjd = util.mj_data(mjm, qpos=q)
+    mujoco.mj_kinematics(mjm, mjd)
+    shapes = {0: sA, 1: sf.from_model(mjm, mjd, 1)}
+    g0 = [int(x) for x in k["geom"]]
+    sep_w, dev_w = cc.certificate(shapes[g0[0]], shapes[g0[1]], k)
+    c.nchecked += 2
+    if abs(dev_w) > P_TOL:
+      c.fail(f"P:{name}:dist_not_separation_along_normal:inside", f"{tag}: dist={float(k['dist']):.7g} but sep(n)={sep_w:.7g} (|diff|={abs(dev_w):.3g})")
+    if abs(float(k["dist"]) - want) > P_TOL:
+      c.fail(
+        f"P:{name}:inside:dist_not_signed_distance",
+        f"{tag}: dist={float(k['dist']):.7g} along n={np.round(np.asarray(k['frame'])[0], 5).tolist()} but the sphere's signed distance to the "
+        f"partner is {want:.7g} (a nearer surface exists; |diff|={abs(float(k['dist']) - want):.3g} > {P_TOL:.3g})",
+      )
+    else:
+      _surface(c, k, shapes[g0[0]], shapes[g0[1]], 5e-5, tag, f"P:{name}:inside")
+    stats["validated"] += 1
+    stats["interior"] += int(want + r < 0)
+  return c.result(nontrivial=stats["validated"] > 0 and stats["interior"] > 0, key=util.sha(scn), info={k: int(x) for k, x in stats.items()}, counts=dict(extra_evaluations=len(qs) - 1))
+
+
 def execute(scn):
-  return _pair(scn) if scn["fam"] == "pair" else _hfield(scn)
+  return {"pair": _pair, "hfield": _hfield, "inside": _inside}[scn["fam"]](scn)
